@@ -61,6 +61,31 @@ def _cases(draw, tier):
     }
 
 
+def fixed_cases(tier):
+    """34 jobs ready at once (more ready operations than any generated
+    case has), flexible, under the filters that compare start times."""
+    inst = gen.many_ready(34, 4)
+    # ... and a skewed one: nearly everything queues for machine 0, a few
+    # operations may also use machine 1, the highest-numbered machine is idle
+    skewed = {
+        "durations": [[3], [2], [4], [1, 1]] + [[1 + i % 3] for i in range(33)],
+        "machines": [[[0, 1]], [[0, 1]], [[0, 1]], [[0], [2]]] + [[[0]] for _ in range(33)],
+        "name": "skewed",
+        "meta": {},
+        "ints": True,
+        "family": "fixed_many_ready",
+    }
+    general = [[(5 * k + 1) % 8, k % 2] for k in range(40)]
+    # (job 0 on machine 1, job 1 on machine 0: then 35 operations are ready,
+    # one of them flexible, and none can start before time 2)
+    busy_first = [[0, 1], [0, 0]] + [[(3 * k) % 8, 0] for k in range(40)]
+    return [
+        {"inst": i, "filters": f, "history": h, "observers": [], "pre": 0}
+        for i, h in ((inst, general), (skewed, busy_first), (skewed, general))
+        for f in (None, ["non_immediate_operations"], ["dominated_operations", "non_immediate_operations"])
+    ]
+
+
 def strategy(tier):
     return _cases(tier)
 
